@@ -45,6 +45,7 @@ def run_rules(mod, chk):
         generic.params_not_dropped(chk)
         generic.subscriptions_rearmed(chk)
         generic.memoised_functions(chk)
+        generic.config_not_mutated(chk)
     chk.repo.on_func = None
     return chk
 
